@@ -92,7 +92,12 @@ class C10(Prop):
             ks = [k for k in lang.kids(f) if not lang.is_leaf(k)]
             if ks:
                 sub = lang.to_jsonable(rng.choice(ks))
-        return {'formula': f, 'pastify': (not past), 'pre': lang.gen_trace(rng, names, pre) if pre else
+        more = []
+        for _ in range(rng.choice([0, 0, 1, 1, 2])):
+            k = rng.randint(1, 12)
+            more.append({'data': lang.gen_trace(rng, names, k), 't': jitter_stamps(rng, k, rng.choice([0.0, 50.0]))})
+        self._more = more
+        return {'formula': f, 'more': more, 'pastify': (not past), 'pre': lang.gen_trace(rng, names, pre) if pre else
                 dict((k, []) for k in names), 'post': lang.gen_trace(rng, names, post),
                 'pre_t': jitter_stamps(rng, pre), 'post_t': jitter_stamps(rng, post, rng.choice([0.0, 100.0])),
                 'kind': rng.choice(['dt', 'dt_on']), 'sub': sub}
@@ -168,6 +173,34 @@ class C10(Prop):
         if m.counter != want_c:
             v.bad('counter-differs-from-fresh', '%s: counter after post-reset stamps %s is %r, fresh monitor %r' % (
                 sd['text'], fmt(case['post_t']), m.counter, want_c))
+        # further reset()/episode rounds on the same object
+        for r, ep in enumerate(case.get('more') or []):
+            if v.viol:
+                break
+            try:
+                fresh = drive.Mon(case['kind'], sd, pastify=case['pastify'])
+                want = self.feed(fresh, names, ep['data'], ep['t'])
+                want_c = fresh.counter
+            except Exception:
+                break
+            try:
+                m.reset()
+                got = self.feed(m, names, ep['data'], ep['t'])
+            except Exception as e:
+                v.bad('reset-round-raises:' + type(e).__name__, '%s: reset() #%d + updates raised %s: %s' % (
+                    sd['text'], r + 2, type(e).__name__, e))
+                break
+            v.info['extra-reset-rounds'] = v.info.get('extra-reset-rounds', 0) + 1
+            for i in range(len(got)):
+                if want[i] != want[i]:
+                    continue
+                if not ref.same(got[i], want[i]):
+                    v.bad('differs-from-fresh', '%s: after reset() #%d update #%d returned %r, a fresh monitor returns %r '
+                          '(episode %s)' % (sd, r + 2, i, got[i], want[i], ep['data']))
+                    break
+            if not v.viol and m.counter != want_c:
+                v.bad('counter-differs-from-fresh', '%s: counter after reset() #%d is %r, fresh monitor %r' % (
+                    sd['text'], r + 2, m.counter, want_c))
         return v
 
 
